@@ -9,5 +9,6 @@ def range_from_index(index: int | slice, length: int) -> range:
 
 
 def slice_from_range(r: range) -> slice:
-    stop = r.stop if r.stop != -1 else None
+    # A stop of -1 means "down to the first element" - unless the range is empty (e.g. range(4)[-10::-1] == range(-1, -1, -1)).
+    stop = r.stop if r.stop != -1 or not r else None
     return slice(r.start, stop, r.step)
